@@ -357,6 +357,9 @@ int ieee80211_radiotap_iterator_next(struct ieee80211_radiotap_iterator *iterato
                     size = iterator->current_namespace->align_size[iterator->_arg_index].size;
                 }
                 if (!align) {
+                    /* an undefined radiotap field has no known size: nothing after it can be located */
+                    if (iterator->current_namespace == &radiotap_ns)
+                        return -ENOENT;
                     /* skip all subsequent data */
                     iterator->_arg = iterator->_next_ns_data;
                     /* give up on this namespace */
